@@ -4,7 +4,7 @@
 //! `context.run_after`, `context.fail`, `context.stop`). Every observation is appended to a trace through
 //! `context.effect` closures.
 
-use crate::ast::{arm_of, to_val, try_fails, How, Obs, Src, Tables, HK, P, V};
+use crate::ast::{arm_of, burst_key, to_val, try_fails, xform, How, Obs, Src, Tables, HK, P, V};
 use parking_lot::Mutex;
 use serde::{Deserialize, Serialize};
 use std::collections::{BTreeMap, HashMap};
@@ -24,7 +24,9 @@ use swimos::agent::{lifecycle, projections, AgentLaneModel};
 pub struct HAgent {
     v0: ValueLane<i32>,
     m0: MapLane<i32, i32>,
+    #[item(name = "second_value")]
     v1: ValueLane<i32>,
+    #[item(name = "otherMap")]
     m1: MapLane<i32, i32, BTreeMap<i32, i32>>,
     ctl: CommandLane<i32>,
 }
@@ -235,6 +237,15 @@ pub fn build_v(sh: &Arc<Shared>, v: &V) -> Value {
     }
 }
 
+/// Step `i` of a burst.
+pub fn burst_step(lane: u8, i: u16, v: i32) -> P {
+    if crate::ast::is_value(lane) {
+        P::Set { lane, v: to_val(v as i64, i as i32) }
+    } else {
+        P::Upd { lane, k: burst_key(i), v }
+    }
+}
+
 /// AST -> handler. Nothing is read from the agent while the handler is being built; all reads and
 /// writes happen in `step`.
 pub fn build(sh: &Arc<Shared>, p: &P) -> Handler {
@@ -253,6 +264,33 @@ pub fn build(sh: &Arc<Shared>, p: &P) -> Handler {
         P::Rem { k, .. } => ctx.remove(HAgent::M1, *k).boxed(),
         P::Clr { lane: 1 } => ctx.clear(HAgent::M0).boxed(),
         P::Clr { .. } => ctx.clear(HAgent::M1).boxed(),
+        P::XformV { lane, add } => {
+            let add = *add;
+            if *lane == 0 {
+                ctx.transform_value(HAgent::V0, move |v: &i32| to_val(*v as i64, add)).boxed()
+            } else {
+                ctx.transform_value(HAgent::V1, move |v: &i32| to_val(*v as i64, add)).boxed()
+            }
+        }
+        P::XformE { lane, k, op, c } => {
+            let (op, c) = (*op, *c);
+            if *lane == 1 {
+                ctx.transform_entry(HAgent::M0, *k, move |e: Option<&i32>| xform(op, e.copied(), c)).boxed()
+            } else {
+                ctx.transform_entry(HAgent::M1, *k, move |e: Option<&i32>| xform(op, e.copied(), c)).boxed()
+            }
+        }
+        P::Replace { lane, entries } => {
+            if *lane == 1 {
+                ctx.replace_map(HAgent::M0, entries.clone()).boxed()
+            } else {
+                ctx.replace_map(HAgent::M1, entries.clone()).boxed()
+            }
+        }
+        P::Burst { lane, n, v } => {
+            let hs: Vec<Handler> = (0..*n).map(|i| build(sh, &burst_step(*lane, i, *v))).collect();
+            Sequentially::new(hs).boxed()
+        }
         P::Discard(v) => build_v(sh, v).discard().annotated("discard").boxed(),
         P::Branch { first, how, arms } => {
             let (sh2, arms) = (sh.clone(), arms.clone());
